@@ -91,6 +91,9 @@ class StochasticSolver(ABC):
     def set_failed_epoch(self):
         """Set internal state on failed epoch."""
 
+    def reset_state(self):
+        """Forget state accumulated during a previous solve (solver objects are reusable)."""
+
     def solve(  # noqa: PLR0913
         self,
         initial_model: ttb.ktensor,
@@ -136,6 +139,7 @@ class StochasticSolver(ABC):
         # Setup loop variables
         model = initial_model.copy()
         self._nfails = 0
+        self.reset_state()
 
         best_model = model.copy()
         f_est_prev = f_est
@@ -328,6 +332,13 @@ class Adam(StochasticSolver):
         self._m = self._m_prev.copy()
         self._v = self._v_prev.copy()
 
+    def reset_state(self):  # noqa: D102
+        self._total_iterations = 0
+        self._m = []
+        self._m_prev = []
+        self._v = []
+        self._v_prev = []
+
     def update_step(  # noqa: D102
         self, model: ttb.ktensor, gradient: List[np.ndarray], lower_bound: float
     ) -> Tuple[List[np.ndarray], float]:
@@ -393,6 +404,9 @@ class Adagrad(StochasticSolver):
     def set_failed_epoch(  # noqa: D102
         self,
     ):
+        self._gnormsum = 0.0
+
+    def reset_state(self):  # noqa: D102
         self._gnormsum = 0.0
 
     def update_step(  # noqa: D102
